@@ -47,17 +47,31 @@ type c19Case struct {
 	Seq       []lop   `json:"seq"`
 	Workers   [][]lop `json:"workers"`
 	Decisions []int   `json:"decisions"`
+	// Base is the value the shared clock of the concurrent part starts from
+	// (0 = a fresh clock). Burst[i] (absent = 1) is how many consecutive atomic
+	// steps the worker picked by Decisions[i] is given.
+	Base  uint64 `json:"base,omitempty"`
+	Burst []int  `json:"burst,omitempty"`
 }
 
 const maxU = ^uint64(0)
 
-func genLop(t *rapid.T, seq, allowMax bool) lop {
+// concurrent part: no value above concTop is ever witnessed and at most
+// 6*8+16 increments happen, so the clock cannot step past the last
+// representable value (which is outside the statement)
+const concTop = maxU - 200
+
+// genLop draws one operation. For the sequential part *cur is the reference
+// model's clock value before the operation (the generator keeps it up to date,
+// so "the recorded value and its neighbours" can be drawn at any magnitude);
+// for a worker program *cur is the base the shared clock starts from.
+func genLop(t *rapid.T, seq, allowMax bool, cur *uint64) lop {
 	k := rapid.SampledFrom([]int{lTime, lIncr, lIncr, lWitness, lWitness}).Draw(t, "k")
 	op := lop{K: k}
 	if k == lWitness {
-		switch rapid.IntRange(0, 5).Draw(t, "vclass") {
+		switch rapid.IntRange(0, 7).Draw(t, "vclass") {
 		case 0:
-			pool := []uint64{0, 1, 1<<32 - 1, 1 << 32, 1<<32 + 1, 1<<63 - 1, 1 << 63, 1<<63 + 1}
+			pool := []uint64{0, 1, 1<<32 - 1, 1 << 32, 1<<32 + 1, 1<<53 - 1, 1 << 53, 1<<53 + 1, 1<<63 - 1, 1 << 63, 1<<63 + 1}
 			if seq {
 				// only the sequential part goes to the top of the range: there the
 				// model knows when an Increment would step past the last
@@ -68,8 +82,46 @@ func genLop(t *rapid.T, seq, allowMax bool) lop {
 				}
 			}
 			op.V = rapid.SampledFrom(pool).Draw(t, "vpool")
+		case 1, 2:
+			if seq {
+				// the recorded value, its neighbours, a little behind / ahead
+				d := rapid.IntRange(-3, 3).Draw(t, "vrel")
+				v := *cur + uint64(int64(d))
+				if d < 0 && uint64(-d) > *cur {
+					v = 0
+				}
+				if d > 0 && v < *cur {
+					v = maxU - 1 // wrapped
+				}
+				op.V = v
+			} else {
+				op.V = *cur + rapid.Uint64Range(0, 14).Draw(t, "vnear")
+			}
+		case 3:
+			if seq {
+				op.V = rapid.Uint64().Draw(t, "vany")
+			} else {
+				op.V = rapid.Uint64Range(0, concTop).Draw(t, "vany")
+			}
 		default:
 			op.V = rapid.Uint64Range(0, 12).Draw(t, "vsmall")
+			if !seq {
+				op.V += *cur
+			}
+		}
+		if op.V == maxU && !allowMax {
+			op.V = maxU - 1
+		}
+		if !seq && op.V > concTop {
+			op.V = concTop
+		}
+	}
+	if seq {
+		switch {
+		case k == lIncr && *cur < maxU:
+			*cur++
+		case k == lWitness && op.V >= *cur:
+			*cur = op.V + 1
 		}
 	}
 	return op
@@ -79,23 +131,75 @@ func genC19(t *rapid.T) c19Case {
 	var c c19Case
 	allowMax := !vkit.IsKnown("C19", "witness(2^64-1)") || rapid.IntRange(0, 9).Draw(t, "max") == 0
 	n := rapid.IntRange(0, 30).Draw(t, "nseq")
+	var cur uint64
 	for i := 0; i < n; i++ {
-		c.Seq = append(c.Seq, genLop(t, true, allowMax))
+		c.Seq = append(c.Seq, genLop(t, true, allowMax, &cur))
+	}
+	// the concurrent part starts from a fresh clock (most cases) or from a
+	// clock already standing next to a power-of-two boundary / far up the range
+	if rapid.IntRange(0, 9).Draw(t, "based") < 4 {
+		c.Base = rapid.SampledFrom([]uint64{1<<32 - 4, 1<<32 - 20, 1<<53 - 6, 1<<63 - 4, 1<<63 - 20, concTop - 30,
+			rapid.Uint64Range(1, concTop-30).Draw(t, "anybase")}).Draw(t, "base")
+	}
+	base := c.Base
+	if rapid.IntRange(0, 4).Draw(t, "adversary") == 0 {
+		genAdversary(t, &c)
 	}
 	g := rapid.IntRange(2, 6).Draw(t, "workers")
-	for w := 0; w < g; w++ {
+	for w := len(c.Workers); w < g; w++ {
 		m := rapid.IntRange(1, 8).Draw(t, "nops")
 		var ops []lop
 		for i := 0; i < m; i++ {
-			ops = append(ops, genLop(t, false, false))
+			ops = append(ops, genLop(t, false, false, &base))
 		}
 		c.Workers = append(c.Workers, ops)
 	}
 	nd := rapid.IntRange(0, 120).Draw(t, "ndec")
 	for i := 0; i < nd; i++ {
 		c.Decisions = append(c.Decisions, rapid.IntRange(0, 5).Draw(t, "dec"))
+		// mostly single steps; sometimes one worker gets a run of steps while the
+		// others stay parked where they are (e.g. between a Load and its CAS)
+		b := 1
+		if rapid.IntRange(0, 5).Draw(t, "bursty") == 0 {
+			b = rapid.IntRange(2, 8).Draw(t, "burst")
+		}
+		c.Burst = append(c.Burst, b)
+	}
+	for len(c.Burst) < len(c.Decisions) {
+		c.Burst = append([]int{1}, c.Burst...) // the adversary prefix is single-stepped
 	}
 	return c
+}
+
+// genAdversary spells out the schedule the retry loop of Witness is written
+// for: worker 0 witnesses a value ahead of the clock and is parked between its
+// Load and its compare-and-swap; worker 1 completes one whole operation
+// (mostly Increment, sometimes a Witness that passes worker 0 by); worker 0
+// fails its CAS, re-reads and is parked again - k times in a row. Random
+// decision streams produce 4-6 such rounds now and then, never 10.
+func genAdversary(t *rapid.T, c *c19Case) {
+	k := rapid.IntRange(1, 14).Draw(t, "advRounds")
+	v := c.Base + uint64(k) + rapid.Uint64Range(0, 6).Draw(t, "advAhead")
+	a := []lop{{K: lWitness, V: v}, {K: lTime}}
+	var b []lop
+	dec := []int{0, 0, 1} // w0: parked before Load, then before CAS; w1: parked before its first atomic
+	for i := 0; i < k; i++ {
+		steps := 1
+		if rapid.IntRange(0, 5).Draw(t, "advPass") == 0 {
+			v2 := v + rapid.Uint64Range(1, 3).Draw(t, "advBy")
+			b = append(b, lop{K: lWitness, V: v2})
+			steps = 2
+		} else {
+			b = append(b, lop{K: lIncr})
+		}
+		for j := 0; j < steps; j++ {
+			dec = append(dec, 1)
+		}
+		dec = append(dec, 0, 0)
+	}
+	b = append(b, lop{K: lTime})
+	c.Workers = append(c.Workers, a, b)
+	c.Decisions = append(c.Decisions, dec...)
 }
 
 // ---- cooperative scheduler ----------------------------------------------
@@ -115,6 +219,8 @@ type worker struct {
 	parked  chan struct{} // signalled when the worker blocks at a yield point or finishes
 	done    bool
 	started bool
+	// operations completed so far (guarded by sched.mu)
+	completed int
 }
 
 type sched struct {
@@ -150,6 +256,15 @@ func runConcurrent(c *c19Case, x *vkit.Ctx) (ops []porcupine.Operation, overlaps
 	s := &sched{byGoid: map[uint64]*worker{}}
 	serf.VerifYieldHook = s.hook
 	defer func() { serf.VerifYieldHook = nil }()
+	if c.Base > 0 {
+		// bring the shared clock to its starting value (sequentially, by the
+		// contract the sequential part checks) before any worker runs
+		clock.Witness(serf.LamportTime(c.Base - 1))
+		if got := uint64(clock.Time()); got != c.Base {
+			x.Violationf("seq-witness-model", "fresh clock: after Witness(%d) the clock is %d, model %d", c.Base-1, got, c.Base)
+			return nil, 0, false
+		}
+	}
 	var h hist
 	var wg sync.WaitGroup
 	type obs struct {
@@ -186,6 +301,7 @@ func runConcurrent(c *c19Case, x *vkit.Ctx) (ops []porcupine.Operation, overlaps
 				s.mu.Lock()
 				s.step++
 				ret := s.step
+				w.completed++
 				s.mu.Unlock()
 				h.mu.Lock()
 				h.ops = append(h.ops, porcupine.Operation{ClientId: i, Input: lin{op.K, op.V}, Call: call, Output: out, Return: ret})
@@ -201,6 +317,8 @@ func runConcurrent(c *c19Case, x *vkit.Ctx) (ops []porcupine.Operation, overlaps
 	}
 	// scheduling loop: resume one runnable worker, wait until it parks again
 	di := 0
+	var lastW *worker
+	lastCompleted, solo := 0, 0
 	for {
 		var runnable []*worker
 		s.mu.Lock()
@@ -209,26 +327,56 @@ func runConcurrent(c *c19Case, x *vkit.Ctx) (ops []porcupine.Operation, overlaps
 				runnable = append(runnable, w)
 			}
 		}
-		s.step++
 		s.mu.Unlock()
 		if len(runnable) == 0 {
 			break
 		}
-		d := 0
+		d, burst := 0, 1
 		if di < len(c.Decisions) {
 			d = c.Decisions[di]
+			if di < len(c.Burst) && c.Burst[di] > 1 {
+				burst = c.Burst[di]
+			}
 			di++
 		}
 		w := runnable[d%len(runnable)]
-		w.resume <- struct{}{}
-		select {
-		case <-w.parked:
-		case <-time.After(20 * time.Second):
-			x.Inconclusive("scheduler-timeout")
-			return nil, 0, false
+		for b := 0; b < burst; b++ {
+			s.mu.Lock()
+			s.step++
+			done, completed := w.done, w.completed
+			s.mu.Unlock()
+			if done {
+				break
+			}
+			// A worker that is the only one running must finish its operation
+			// within a few of its own atomic steps: Time and Increment are one
+			// step, Witness re-reads and retries at most once per interference.
+			// An operation that does not return while nobody else moves never
+			// returns at all ("after witnessing a time ..." presupposes it does).
+			if w == lastW && completed == lastCompleted {
+				solo++
+			} else {
+				lastW, lastCompleted, solo = w, completed, 1
+			}
+			if solo > 16 {
+				x.Violationf("op-never-completes-undisturbed", "worker %d took %d atomic steps in a row inside one operation (op index %d) while no other worker ran", w.id, solo, completed)
+				return nil, 0, false
+			}
+			w.resume <- struct{}{}
+			select {
+			case <-w.parked:
+			case <-time.After(20 * time.Second):
+				x.Inconclusive("scheduler-timeout")
+				return nil, 0, false
+			}
 		}
 	}
 	wg.Wait()
+	// one more read by the harness after every worker has returned: the state
+	// the history leaves behind is part of the history
+	s.step++
+	final := uint64(clock.Time())
+	h.ops = append(h.ops, porcupine.Operation{ClientId: len(c.Workers), Input: lin{lTime, 0}, Call: s.step, Output: final, Return: s.step + 1})
 
 	// direct checks
 	seenIncr := map[uint64]int{}
@@ -261,6 +409,18 @@ func runConcurrent(c *c19Case, x *vkit.Ctx) (ops []porcupine.Operation, overlaps
 			}
 		}
 	}
+	for wi, os := range perWorker {
+		for oi, o := range os {
+			if o.k == lWitness && final <= o.v {
+				x.Violationf("witness-not-exceeded", "worker %d op %d: Witness(%d) returned, yet the clock reads %d when all workers are done", wi, oi, o.v, final)
+				return nil, 0, false
+			}
+			if o.k != lWitness && final < o.out {
+				x.Violationf("clock-went-backwards", "worker %d op %d observed %d, the clock reads %d when all workers are done", wi, oi, o.out, final)
+				return nil, 0, false
+			}
+		}
+	}
 	// overlap count for the non-triviality rule
 	for i := range h.ops {
 		for j := i + 1; j < len(h.ops); j++ {
@@ -274,7 +434,13 @@ func runConcurrent(c *c19Case, x *vkit.Ctx) (ops []porcupine.Operation, overlaps
 	return h.ops, overlaps, true
 }
 
-var lamportModel = porcupine.Model{
+func lamportModel(base uint64) porcupine.Model {
+	m := lamportModel0
+	m.Init = func() interface{} { return base }
+	return m
+}
+
+var lamportModel0 = porcupine.Model{
 	Init: func() interface{} { return uint64(0) },
 	Step: func(state, input, output interface{}) (bool, interface{}) {
 		s := state.(uint64)
@@ -363,12 +529,15 @@ func bodyC19(c c19Case, x *vkit.Ctx) {
 	if !ok {
 		return
 	}
-	res := porcupine.CheckOperations(lamportModel, ops)
+	res := porcupine.CheckOperations(lamportModel(c.Base), ops)
 	if !res {
 		x.Violationf("not-linearizable", "the concurrent history is not linearizable w.r.t. the Lamport clock model: %v", describe(ops))
 		return
 	}
 	x.Labelf("workers=%d", len(c.Workers))
+	if c.Base > 0 {
+		x.Label("concurrent-base>0")
+	}
 	x.Labelf("overlapping-witness-pairs=%d", min(overlaps, 5))
 	if ntSeq {
 		x.Label("seq-witness>=clock")
